@@ -59,6 +59,7 @@ func (fc *FnCtx) mapSymbols(mt types.Type) *mapSyms {
 		strings.Join(qk, " "), mangle("mhas."+tn), delT, strings.Join(ka, " "), delT))
 	fc.assertGlobal(fmt.Sprintf("(forall (%s) (not (%s %s %s)))", strings.Join(qk, " "), mangle("mhas."+tn), mangle("mempty."+tn), strings.Join(ka, " ")))
 	fc.assertGlobal(fmt.Sprintf("(forall ((st Int)) (<= 0 (%s st)))", mangle("mlen."+tn)))
+	fc.assertGlobal(fmt.Sprintf("(= (%s %s) 0)", mangle("mlen."+tn), mangle("mempty."+tn)))
 	return ms
 }
 
@@ -140,4 +141,20 @@ func (fc *FnCtx) makeMap(x *ssa.MakeMap) {
 	cur := fc.getHeapTerm(&fc.cur, hn, arrOf(SInt))
 	fc.assumeHere(fmt.Sprintf("(= (select %s %s) %s)", cur, r.S(), mangle("mempty."+ms.name)))
 	fc.setVal(x, r)
+}
+
+// mapLen: the number of entries of the map (an uninterpreted function of its abstract state; zero for the empty map).
+func (fc *FnCtx) mapLen(h *HeapState, mt types.Type, ref string) string {
+	ms := fc.mapSymbols(mt)
+	return fmt.Sprintf("(%s %s)", mangle("mlen."+ms.name), fc.mapState(h, mt, ref))
+}
+
+// mapClear: clear(m) leaves the empty map.
+func (fc *FnCtx) mapClear(c *ssa.CallCommon) {
+	mt := c.Args[0].Type()
+	ms := fc.mapSymbols(mt)
+	m := fc.val(c.Args[0]).S()
+	hn := "MS." + typeName(mt)
+	cur := fc.getHeapTerm(&fc.cur, hn, arrOf(SInt))
+	fc.heapSet(&fc.cur, hn, arrOf(SInt), fmt.Sprintf("(store %s %s %s)", cur, m, mangle("mempty."+ms.name)))
 }
